@@ -59,25 +59,110 @@ theorem median2_const (v : List ℝ) (c : ℝ) (hne : v ≠ []) (h : ∀ x ∈ v
   rw [nth_of_all _ c hs _ (by omega), nth_of_all _ c hs _ (by omega)]
   simp only [add_eq, div_eq, two_eq]; ring
 
-/-- the orientation computed from shifts that are all equal to `c` -/
-theorem orientationOfShifts_const (sz : List ℝ) (c : ℝ) (hne : sz ≠ []) (h : ∀ x ∈ sz, x = c) :
-    orientationOfShifts sz = (if c < 0 then c + 2 * Real.pi else c, sz.length) := by
-  have hs : ∀ x ∈ sort sz, x = c := fun x hx => h x ((mem_sort x sz).mp hx)
-  have hl : 0 < sz.length := List.length_pos_of_ne_nil hne
-  have hl' : (sort sz).length = sz.length := length_sort sz
-  unfold orientationOfShifts
-  simp only []
-  have hn : ¬ sz.length = 0 := by omega
-  simp only [hn, if_false]
-  rw [nth_of_all _ c hs _ (by omega), nth_of_all _ c hs _ (by omega)]
-  have h1 : ¬ ((Trig.pi : ℝ) / Cogo.two < Scalar.abs (c - c) ∧ sz.length < 3) := by
-    simp only [sub_eq, abs_eq, pi_eq, two_eq, div_eq, lt_eq, sub_self, abs_zero]
-    intro h; have := Real.pi_pos; linarith [h.1]
-  have : (c + c) / 2 = c := by ring
-  simp only [add_eq, div_eq, two_eq, lt_eq, zero_eq, Cogo.twoPi, mul_eq, pi_eq, this, ite_self]
-
+/-! ### the `median(s, dev)` lambda -/
 
 theorem twoPi_eq : (twoPi : ℝ) = 2 * Real.pi := by simp [twoPi]
+
+theorem devFold_eq' (m : ℝ) (l : List ℝ) : ∀ acc : ℝ,
+    l.foldl (fun acc x => acc + |x - m|) acc = acc + (l.map (fun x => |x - m|)).sum := by
+  induction l with
+  | nil => intro acc; simp
+  | cons a l ih =>
+    intro acc
+    rw [List.foldl_cons, ih, List.map_cons, List.sum_cons]
+    ring
+
+theorem devFold_eq (m : ℝ) (l : List ℝ) (acc : ℝ) :
+    l.foldl (fun acc x => acc + Scalar.abs (x - m)) acc = acc + (l.map (fun x => |x - m|)).sum :=
+  devFold_eq' m l acc
+
+theorem devSum_nonneg (m : ℝ) (l : List ℝ) : 0 ≤ (l.map (fun x => |x - m|)).sum := by
+  induction l with
+  | nil => simp
+  | cons a l ih => simp only [List.map_cons, List.sum_cons]; exact add_nonneg (abs_nonneg _) ih
+
+theorem devSum_eq_zero (m : ℝ) (l : List ℝ) (h : (l.map (fun x => |x - m|)).sum = 0) : ∀ x ∈ l, x = m := by
+  induction l with
+  | nil => intro x hx; cases hx
+  | cons a l ih =>
+    simp only [List.map_cons, List.sum_cons] at h
+    have h1 : |a - m| = 0 := by linarith [abs_nonneg (a - m), devSum_nonneg m l]
+    have h2 : (l.map (fun x => |x - m|)).sum = 0 := by linarith [abs_nonneg (a - m), devSum_nonneg m l]
+    intro x hx
+    rcases List.mem_cons.mp hx with rfl | hx
+    · exact sub_eq_zero.mp (abs_eq_zero.mp h1)
+    · exact ih h2 x hx
+
+/-- value of the mean deviation computed by `medianDev` -/
+theorem medianDev_dev (s : List ℝ) :
+    (medianDev s).2.2 = ((sort s).map (fun x => |x - (medianDev s).2.1|)).sum / (s.length : ℝ) := by
+  unfold medianDev
+  simp only [devFold_eq, zero_eq, zero_add, div_eq, ofNat_eq]
+
+theorem medianDev_fst (s : List ℝ) : (medianDev s).1 = sort s := rfl
+
+theorem medianDev_dev_nonneg (s : List ℝ) : 0 ≤ (medianDev s).2.2 := by
+  rw [medianDev_dev]; exact div_nonneg (devSum_nonneg _ _) (Nat.cast_nonneg _)
+
+theorem medianDev_dev_zero (s : List ℝ) (hne : s ≠ []) (h : (medianDev s).2.2 = 0) :
+    ∀ x ∈ s, x = (medianDev s).2.1 := by
+  rw [medianDev_dev] at h
+  have hn : (s.length : ℝ) ≠ 0 := by
+    have := List.length_pos_of_ne_nil hne; exact_mod_cast this.ne'
+  have := (div_eq_zero_iff.mp h).resolve_right hn
+  intro x hx
+  exact devSum_eq_zero _ _ this x ((mem_sort x s).mpr hx)
+
+/-- all elements equal c: median c, deviation 0 -/
+theorem medianDev_const (s : List ℝ) (c : ℝ) (hne : s ≠ []) (h : ∀ x ∈ s, x = c) :
+    (medianDev s).2.1 = c ∧ (medianDev s).2.2 = 0 := by
+  have hs : ∀ x ∈ sort s, x = c := fun x hx => h x ((mem_sort x s).mp hx)
+  have hl : 0 < s.length := List.length_pos_of_ne_nil hne
+  have hl' : (sort s).length = s.length := length_sort s
+  have hmed : (medianDev s).2.1 = c := by
+    unfold medianDev
+    simp only []
+    rw [nth_of_all _ c hs _ (by omega), nth_of_all _ c hs _ (by omega)]
+    have : (c + c) / 2 = c := by ring
+    simp only [add_eq, div_eq, two_eq, this, ite_self]
+  refine ⟨hmed, ?_⟩
+  rw [medianDev_dev, hmed]
+  have : ((sort s).map (fun x => |x - c|)).sum = 0 := by
+    have : (sort s).map (fun x => |x - c|) = (sort s).map (fun _ => (0 : ℝ)) := by
+      apply List.map_congr_left; intro x hx; rw [hs x hx]; simp
+    rw [this]; simp
+  rw [this]; simp
+
+/-- the median of a non-empty list is one of ... we only need: if every element is in {p, q} so is
+    nothing more than membership of the head when the deviation vanishes -/
+theorem orientationOfShifts_unfold (sz : List ℝ) (hne : sz ≠ []) :
+    orientationOfShifts sz =
+      (let l1 := if (medianDev ((sort sz).map (fun x => if x < 0 then x + 2 * Real.pi else x))).2.2 < (medianDev sz).2.2
+                 then (medianDev ((sort sz).map (fun x => if x < 0 then x + 2 * Real.pi else x))).2.1
+                 else (medianDev sz).2.1
+       (if l1 < 0 then l1 + 2 * Real.pi else l1, sz.length)) := by
+  have hl : 0 < sz.length := List.length_pos_of_ne_nil hne
+  have hn : ¬ sz.length = 0 := by omega
+  unfold orientationOfShifts
+  simp only [hn, if_false, medianDev_fst, twoPi_eq, lt_eq, zero_eq, add_eq]
+
+/-- shifts that all equal c (|c| ≤ π): the reported orientation is c brought to [0,2π) -/
+theorem orientationOfShifts_const (sz : List ℝ) (c : ℝ) (hne : sz ≠ []) (h : ∀ x ∈ sz, x = c) :
+    orientationOfShifts sz = (if c < 0 then c + 2 * Real.pi else c, sz.length) := by
+  rw [orientationOfShifts_unfold sz hne]
+  obtain ⟨hm, hd⟩ := medianDev_const sz c hne h
+  set sw := (sort sz).map (fun x => if x < 0 then x + 2 * Real.pi else x) with hsw
+  have hswne : sw ≠ [] := by
+    rw [hsw]; intro e
+    have := congrArg List.length e
+    rw [List.length_map, length_sort] at this
+    exact hne (List.length_eq_zero_iff.mp this)
+  have hswall : ∀ x ∈ sw, x = (if c < 0 then c + 2 * Real.pi else c) := by
+    intro x hx
+    obtain ⟨y, hy, rfl⟩ := List.mem_map.mp hx
+    rw [h y ((mem_sort y sz).mp hy)]
+  obtain ⟨_, hdw⟩ := medianDev_const sw _ hswne hswall
+  simp only [hd, hdw, lt_self_iff_false, if_false, hm]
 
 theorem wrapDown_of_le (n : ℕ) (x : ℝ) (h : x ≤ Real.pi) : wrapDown n x = x := by
   cases n with
@@ -106,7 +191,9 @@ theorem wrap_lo (n : ℕ) (x : ℝ) (h1 : x < -Real.pi) (h2 : -3 * Real.pi ≤ x
   unfold wrapUp; simp only [pi_eq, lt_eq, neg_eq, h1, if_true, add_eq, twoPi_eq]
   exact wrapUp_of_ge n _ (by linarith)
 
-/-- consistent directions: every shift equals the same representative of the true orientation -/
+
+/-- one consistent direction: the shift is the representative of the true orientation in (−π, π],
+    or −π when the orientation is exactly π and the direction value was reduced by 2π -/
 theorem shift_consistent (n : ℕ) (o zn sn : ℝ) (ho0 : 0 ≤ o) (ho2 : o < 2 * Real.pi) (hoπ : o ≠ Real.pi)
     (hsn : sn = zn - o ∨ sn = zn - o + 2 * Real.pi) :
     shift (n + 1) zn sn = if o < Real.pi then o else o - 2 * Real.pi := by
@@ -124,30 +211,83 @@ theorem shift_consistent (n : ℕ) (o zn sn : ℝ) (ho0 : 0 ≤ o) (ho2 : o < 2 
     · rw [wrap_lo _ _ (by linarith) (by linarith)]; ring
     · exact wrap_mid _ _ (by linarith [not_lt.mp hlt]) (by linarith)
 
+theorem shift_seam (n : ℕ) (zn sn : ℝ)
+    (hsn : sn = zn - Real.pi ∨ sn = zn - Real.pi + 2 * Real.pi) :
+    shift (n + 1) zn sn = Real.pi ∨ shift (n + 1) zn sn = -Real.pi := by
+  have hp := Real.pi_pos
+  unfold shift; simp only [sub_eq]
+  rcases hsn with h | h <;> rw [h]
+  · left
+    have : zn - (zn - Real.pi) = Real.pi := by ring
+    rw [this]; exact wrap_mid _ _ (by linarith) le_rfl
+  · right
+    have : zn - (zn - Real.pi + 2 * Real.pi) = -Real.pi := by ring
+    rw [this]; exact wrap_mid _ _ le_rfl (by linarith)
+
+/-- shifts that are all ±π (true orientation exactly on the seam): the result is π -/
+theorem orientationOfShifts_seam (sz : List ℝ) (hne : sz ≠ [])
+    (h : ∀ x ∈ sz, x = Real.pi ∨ x = -Real.pi) :
+    orientationOfShifts sz = (Real.pi, sz.length) := by
+  have hp := Real.pi_pos
+  rw [orientationOfShifts_unfold sz hne]
+  set sw := (sort sz).map (fun x => if x < 0 then x + 2 * Real.pi else x) with hsw
+  have hswne : sw ≠ [] := by
+    rw [hsw]; intro e
+    have := congrArg List.length e
+    rw [List.length_map, length_sort] at this
+    exact hne (List.length_eq_zero_iff.mp this)
+  have hswall : ∀ x ∈ sw, x = Real.pi := by
+    intro x hx
+    obtain ⟨y, hy, rfl⟩ := List.mem_map.mp hx
+    rcases h y ((mem_sort y sz).mp hy) with e | e <;> rw [e]
+    · simp [not_lt.mpr hp.le]
+    · simp [hp]; ring
+  obtain ⟨hmw, hdw⟩ := medianDev_const sw _ hswne hswall
+  simp only [hmw, hdw]
+  by_cases hd : 0 < (medianDev sz).2.2
+  · simp only [hd, if_true, not_lt.mpr hp.le, if_false]
+  · have hd0 : (medianDev sz).2.2 = 0 := le_antisymm (not_lt.mp hd) (medianDev_dev_nonneg sz)
+    have hall := medianDev_dev_zero sz hne hd0
+    obtain ⟨a, l, rfl⟩ := List.exists_cons_of_ne_nil hne
+    have ha := hall a List.mem_cons_self
+    simp only [hd, if_false]
+    rcases h a List.mem_cons_self with e | e
+    · rw [← ha, e]; simp [not_lt.mpr hp.le]
+    · rw [← ha, e]; simp [hp]; ring
+
 theorem orientation_consistent (n : ℕ) (o : ℝ) (dirs : List (ℝ × ℝ)) (hne : dirs ≠ [])
-    (ho0 : 0 ≤ o) (ho2 : o < 2 * Real.pi) (hoπ : o ≠ Real.pi)
+    (ho0 : 0 ≤ o) (ho2 : o < 2 * Real.pi)
     (h : ∀ p ∈ dirs, p.2 = p.1 - o ∨ p.2 = p.1 - o + 2 * Real.pi) :
     orientation (n + 1) dirs = (o, dirs.length) := by
-  unfold orientation
-  set c := if o < Real.pi then o else o - 2 * Real.pi with hc
-  have hall : ∀ x ∈ dirs.map (fun p => shift (n + 1) p.1 p.2), x = c := by
-    intro x hx
-    obtain ⟨p, hp, rfl⟩ := List.mem_map.mp hx
-    exact shift_consistent n o p.1 p.2 ho0 ho2 hoπ (h p hp)
-  rw [orientationOfShifts_const _ c (by simpa using hne) hall, List.length_map]
-  congr 1
-  rw [hc]
   have hp := Real.pi_pos
-  split_ifs with h1 h2 h2
-  · linarith
-  · rfl
-  · ring
-  · exfalso; linarith
+  unfold orientation
+  have hmne : dirs.map (fun p => shift (n + 1) p.1 p.2) ≠ [] := by simpa using hne
+  by_cases hoπ : o = Real.pi
+  · subst hoπ
+    have hall : ∀ x ∈ dirs.map (fun p => shift (n + 1) p.1 p.2), x = Real.pi ∨ x = -Real.pi := by
+      intro x hx
+      obtain ⟨p, hp', rfl⟩ := List.mem_map.mp hx
+      exact shift_seam n p.1 p.2 (h p hp')
+    rw [orientationOfShifts_seam _ hmne hall, List.length_map]
+  · set c := if o < Real.pi then o else o - 2 * Real.pi with hc
+    have hall : ∀ x ∈ dirs.map (fun p => shift (n + 1) p.1 p.2), x = c := by
+      intro x hx
+      obtain ⟨p, hp', rfl⟩ := List.mem_map.mp hx
+      exact shift_consistent n o p.1 p.2 ho0 ho2 hoπ (h p hp')
+    rw [orientationOfShifts_const _ c hmne hall, List.length_map]
+    congr 1
+    rw [hc]
+    split_ifs with h1 h2 h2
+    · linarith
+    · rfl
+    · ring
+    · exfalso; linarith
 
-/-- F15: shifts on both sides of the ±π seam (even count, half and half) — the median is 0,
-    i.e. off by π from the common orientation π (mod 2π) that every shift is within ε of -/
-theorem orientation_seam (ε : ℝ) (h0 : 0 < ε) (h1 : ε < Real.pi) :
-    orientationOfShifts [-(Real.pi - ε), -(Real.pi - ε), Real.pi - ε, Real.pi - ε] = (0, 4) := by
+
+/-- regression for F15 (fixed by 01e764d): the shifts that used to give orientation 0 now give π -/
+theorem orientation_seam_regression (ε : ℝ) (h0 : 0 < ε) (h1 : ε < Real.pi / 2) :
+    orientationOfShifts [-(Real.pi - ε), -(Real.pi - ε), Real.pi - ε, Real.pi - ε] = (Real.pi, 4) := by
+  have hp := Real.pi_pos
   set a := Real.pi - ε with ha
   have hapos : 0 < a := by rw [ha]; linarith
   have hs : sort [-a, -a, a, a] = [-a, -a, a, a] := by
@@ -155,8 +295,37 @@ theorem orientation_seam (ε : ℝ) (h0 : 0 < ε) (h1 : ε < Real.pi) :
     have l2 : -a ≤ a := by linarith
     have l3 : -a ≤ -a := le_refl _
     simp [sort, insertSorted, l1, l2, l3]
-  unfold orientationOfShifts
-  simp only [hs, List.length_cons, List.length_nil]
-  norm_num [nth]
+  rw [orientationOfShifts_unfold _ (by simp)]
+  set b := -a + 2 * Real.pi with hb
+  have hab : a < b := by rw [hb, ha]; linarith
+  have hsw : (sort [-a, -a, a, a]).map (fun x => if x < 0 then x + 2 * Real.pi else x) = [b, b, a, a] := by
+    rw [hs]; simp [hapos, not_lt.mpr hapos.le, hb]
+  have hs2 : sort [b, b, a, a] = [a, a, b, b] := by
+    have l1 : (a : ℝ) ≤ a := le_refl a
+    have l2 : ¬ b ≤ a := not_le.mpr hab
+    have l3 : b ≤ b := le_refl _
+    have l4 : a ≤ b := hab.le
+    simp [sort, insertSorted, l1, l2, l3, l4]
+  have hm1 : (medianDev [-a, -a, a, a]).2.1 = 0 := by
+    unfold medianDev
+    simp only [hs, List.length_cons, List.length_nil]
+    norm_num [nth]
+  have hd1 : (medianDev [-a, -a, a, a]).2.2 = a := by
+    rw [medianDev_dev, hm1, hs]
+    simp [abs_of_pos hapos]; ring
+  have hm2 : (medianDev [b, b, a, a]).2.1 = Real.pi := by
+    unfold medianDev
+    simp only [hs2, List.length_cons, List.length_nil]
+    norm_num [nth]
+    rw [hb, ha]; ring
+  have hd2 : (medianDev [b, b, a, a]).2.2 = ε := by
+    rw [medianDev_dev, hm2, hs2]
+    have e1 : |a - Real.pi| = ε := by rw [ha]; rw [show Real.pi - ε - Real.pi = -ε by ring, abs_neg, abs_of_pos h0]
+    have e2 : |b - Real.pi| = ε := by rw [hb, ha]; rw [show -(Real.pi - ε) + 2 * Real.pi - Real.pi = ε by ring, abs_of_pos h0]
+    simp [e1, e2]; ring
+  rw [hsw]
+  simp only [hm1, hd1, hm2, hd2]
+  have : ε < a := by rw [ha]; linarith
+  simp [this, not_lt.mpr hp.le]
 
 end Gama.C06L
